@@ -400,6 +400,16 @@ def run_concrete(stmts, env, events, notes, depth=0, workers=(), resolver=None, 
                 if isinstance(e.op, ast.Or) and tr_:
                     return r
             return r
+        if isinstance(e, ast.BinOp) and isinstance(e.op, (ast.Add, ast.Sub, ast.Mult, ast.FloorDiv, ast.Mod)) and any(
+                isinstance(x, ast.Call) for x in ast.walk(e)):
+            # arithmetic over the results of calls the evaluator answers itself (len of a modelled sequence, a hooked worker): operand by operand
+            try:
+                l_, r_ = val(e.left), val(e.right)
+            except NotConst:
+                l_ = r_ = None
+            if type(l_) is int and type(r_) is int and not (isinstance(e.op, (ast.FloorDiv, ast.Mod)) and r_ == 0):
+                import operator as _ob
+                return {ast.Add: _ob.add, ast.Sub: _ob.sub, ast.Mult: _ob.mul, ast.FloorDiv: _ob.floordiv, ast.Mod: _ob.mod}[type(e.op)](l_, r_)
         if isinstance(e, ast.Compare) and len(e.ops) == 1:
             l_, r_ = val(e.left), val(e.comparators[0])
             op = e.ops[0]
